@@ -151,11 +151,11 @@ func (c *Ctx) Risky(desc string) bool {
 		return true
 	}
 	b := []byte(desc)
-	if len(b) > 4000 {
-		b = b[:4000]
+	if len(b) > 900000 {
+		b = b[:900000]
 	}
-	buf := make([]byte, 0, 4+len(b))
-	buf = append(buf, fmt.Sprintf("%04d", len(b))...)
+	buf := make([]byte, 0, 6+len(b))
+	buf = append(buf, fmt.Sprintf("%06d", len(b))...)
 	buf = append(buf, b...)
 	c.progress.WriteAt(buf, 0)
 	return true
